@@ -614,6 +614,40 @@ pub fn spaces(tier: Tier) -> Vec<Space> {
             toks.extend(body.iter().cloned());
             let k = c[2] as usize;
             let reference = ri::run(&toks);
+            if matches!(reference.end, End::Failed { .. }) {
+                // a script that fails has failed whatever the driver does next: k steps, run(), run() again - neither run
+                // may report completion
+                acc.evaluations += 1;
+                acc.transitions += k as u64 + 2;
+                acc.traces += 1;
+                acc.nontrivial_structural += 1;
+                let bytes = rs::serialize(&toks);
+                let res = crate::engine::guard(|| -> Result<(bool, bool), String> {
+                    let s = bsv::Script::from_bytes(&bytes).map_err(|e| e.to_string())?;
+                    let mut it = bsv::Interpreter::from_script(&s);
+                    for _ in 0..k {
+                        match it.next() {
+                            Some(Ok(_)) => {}
+                            _ => break,
+                        }
+                    }
+                    Ok((it.run().is_ok(), it.run().is_ok()))
+                });
+                let input = json!({"program": name, "script_hex": hex::encode(&bytes), "single_steps_before_run": k, "reference": "fails"});
+                match res {
+                    Ok(Ok((r1, r2))) => {
+                        acc.outcome(&[b'f', r1 as u8, r2 as u8]);
+                        if r1 {
+                            acc.violate("C14/run/kind=failing-script-reported-complete-after-single-steps", case.idx, case.json(input), format!("after {} steps run() returned Ok for a script the reference fails", k));
+                        } else if r2 {
+                            acc.violate("C14/run/kind=failing-script-reported-complete-by-second-run", case.idx, case.json(input), "run() returned an error, a second run() on the same interpreter returned Ok");
+                        }
+                    }
+                    Ok(Err(_)) => {}
+                    Err(p) => acc.violate(format!("C14/run/kind=panic@{}", crate::engine::panic_site(&p)), case.idx, case.json(input), p),
+                }
+                return;
+            }
             if !matches!(reference.end, End::Completed) {
                 return;
             }
